@@ -76,7 +76,50 @@ def main(root, repo_src, plan_path):
         ss = h0.cardinality in (grpclib.const.Cardinality.UNARY_STREAM, grpclib.const.Cardinality.STREAM_STREAM)
 
         def make_handler(name):
-            if ss:
+            if ss and call.get("handler_kind") in ("channel", "aiter") and call["mode"] == "ok":
+                # a handler need not be an async generator: any async-iterable object it returns is the response stream -
+                # betterproto's own AsyncChannel filled by a background producer, or a plain class with __aiter__/__anext__
+                def handler(self, arg):
+                    rec["ran"].append(name)
+                    resps = [behave.build(rep_t, salt="r%d" % k) for k in range(call["nresp"])]
+
+                    async def consume():
+                        if cs:
+                            async for r in arg:
+                                rec["seen_reqs"].append(bytes(r).hex())
+                        else:
+                            rec["seen_reqs"].append(bytes(arg).hex())
+                    if call["handler_kind"] == "channel":
+                        from betterproto.grpc.util.async_channel import AsyncChannel
+                        ch = AsyncChannel()
+
+                        async def produce():
+                            await consume()
+                            for resp in resps:
+                                rec["sent_resps"].append(bytes(resp).hex())
+                                await ch.send(resp)
+                            ch.close()
+                        rec["_task"] = asyncio.ensure_future(produce())
+                        return ch
+
+                    class It:
+                        def __init__(self):
+                            self.k = -1
+
+                        def __aiter__(self):
+                            return self
+
+                        async def __anext__(self):
+                            if self.k < 0:
+                                await consume()
+                                self.k = 0
+                            if self.k >= len(resps):
+                                raise StopAsyncIteration
+                            self.k += 1
+                            rec["sent_resps"].append(bytes(resps[self.k - 1]).hex())
+                            return resps[self.k - 1]
+                    return It()
+            elif ss:
                 async def handler(self, arg):
                     rec["ran"].append(name)
                     if cs:
@@ -142,7 +185,38 @@ def main(root, repo_src, plan_path):
                 stub = Stub(channel, **kw_of(plan["stub"]))
                 meth = getattr(stub, pyname)
                 arg = reqs if cs else reqs[0]
-                if cs and call.get("async_source"):
+                if cs and ss and call.get("reuse") and call["mode"] == "ok":
+                    # history: the application feeds its bidi calls from one long-lived outbox.  A first call is abandoned by the
+                    # caller (its task is cancelled while it waits for a response); the call under observation then uses the same
+                    # outbox.  What the abandoned call left behind must not take part in it.
+                    from betterproto.grpc.util.async_channel import AsyncChannel
+                    outbox = AsyncChannel()
+
+                    async def first():
+                        async for _ in meth(outbox, **kw_of(call["kw"])):
+                            pass
+                    t = asyncio.ensure_future(first())
+                    await outbox.send(behave.build(req_t, salt="pre"))
+                    for _ in range(500):
+                        if rec["seen_reqs"]:
+                            break
+                        await asyncio.sleep(0.01)
+                    t.cancel()
+                    try:
+                        await t
+                    except BaseException:
+                        pass
+                    await asyncio.sleep(0.05)
+                    for k in ("ran", "seen_reqs", "sent_resps", "hit"):
+                        del rec[k][:]
+
+                    async def feed():
+                        for r in reqs:
+                            await outbox.send(r)
+                        outbox.close()
+                    rec["_task"] = asyncio.ensure_future(feed())
+                    arg = outbox
+                elif cs and call.get("async_source"):
                     async def agen():
                         for r in reqs:
                             yield r
@@ -157,6 +231,9 @@ def main(root, repo_src, plan_path):
             rec["res"], rec["status"] = "grpc_error", ex.status.name
         except Exception as ex:
             rec["res"], rec["exc"] = "exception", type(ex).__name__ + ": " + str(ex)[:120]
+        t = rec.pop("_task", None)
+        if t is not None and not t.done():
+            t.cancel()
         return rec
 
     hangs = [0]
